@@ -106,6 +106,6 @@ func runMain(args []string) {
 			fmt.Printf("... %d more\n", len(res.Violations)-i)
 			break
 		}
-		fmt.Printf("VIOLATION kind=%s msg=%q model=%s\n", v.Kind, v.Msg, strings.Join(strings.Fields(v.Model), " "))
+		fmt.Printf("VIOLATION kind=%s msg=%q model=%s values=%s\n", v.Kind, v.Msg, strings.Join(strings.Fields(v.Model), " "), compactValues(v.Values))
 	}
 }
